@@ -228,16 +228,110 @@ def shape(t):
 
 
 def rule_const(rep, d, fns):
-    rep.rule("C14.const", "the normalised operation sequence of murmur2_x86_impl / murmur_hash<8> / load_bytes equals the reference "
-                          "MurmurHash2 / MurmurHash64A sequence (constants m, r, shift amounts, tail (index, shift) pairs, order of the mixes)")
-    for label, fn, ref in (("murmur2_x86_impl", fns["x86"], REF_X86), ("murmur_hash<8>", fns["x64"], REF_X64), ("load_bytes", fns["load"], REF_LOAD)):
+    rep.rule("C14.const", "dataflow summary of murmur2_x86_impl / murmur_hash<8> equals the reference MurmurHash2 / MurmurHash64A: initial hash, the update per "
+                          "block, the value returned for every remainder / tail outcome (constants m, r, shift amounts, tail (byte, shift) pairs, order of the "
+                          "mixes), as expression trees with locals and helpers followed; load_bytes against its reference sequence")
+    from . import c14_flow as cf
+    from .. import norm
+    H = ("v", "H")
+
+    def ref_x86(ps):
+        M = ("c", M32)
+        K = ("load", 4)
+        k1 = cf.mk("*", K, M)
+        k2 = cf.mk("^", k1, cf.mk(">>", k1, ("c", 24)))
+        k3 = cf.mk("*", k2, M)
+        it = cf.mk("^", cf.mk("*", H, M), k3)
+        init = cf.mk("^", ("v", ps[2]), ("v", ps[1]))
+        posts = {}
+        for v in range(4):
+            t = H
+            for i in range(v - 1, -1, -1):
+                byte = ("byte", i)
+                t = cf.mk("^", t, cf.mk("<<", byte, ("c", 8 * i)) if i else byte)
+            if v:
+                t = cf.mk("*", t, M)
+            t = cf.mk("^", t, cf.mk(">>", t, ("c", 13)))
+            t = cf.mk("*", t, M)
+            t = cf.mk("^", t, cf.mk(">>", t, ("c", 15)))
+            posts[v] = t
+        return init, it, posts
+
+    def ref_x64(ps):
+        M = ("c", M64)
+        Rr = ("c", 47)
+        K = ("load", 8)
+        k1 = cf.mk("*", K, M)
+        k2 = cf.mk("^", k1, cf.mk(">>", k1, Rr))
+        k3 = cf.mk("*", k2, M)
+        it = cf.mk("*", cf.mk("^", H, k3), M)
+        init = cf.mk("^", ("v", ps[2]), cf.mk("*", ("v", ps[1]), M))
+
+        def fin(t):
+            t = cf.mk("^", t, cf.mk(">>", t, Rr))
+            t = cf.mk("*", t, M)
+            return cf.mk("^", t, cf.mk(">>", t, Rr))
+        return init, it, {"tail": fin(cf.mk("*", cf.mk("^", H, ("call", "load_bytes")), M)), "no tail": fin(H)}
+    for label, fn, mkref in (("murmur2_x86_impl", fns["x86"], ref_x86), ("murmur_hash<8>", fns["x64"], ref_x64)):
+        where = d.where(fn)
+        try:
+            S = cf.summarise(d, fn, _loads_in)
+            init_w, it_w, posts_w = mkref(S["params"])
+            it_got = cf.subst(S["iter"], {S["h"]: H})
+            problems = []
+            if S["init"] != init_w:
+                problems.append(("initial value", "the hash starts as `%s`, the reference algorithm as `%s`" % (cf.show(S["init"]), cf.show(init_w))))
+            if it_got != it_w:
+                problems.append(("block update", "one block turns H into `%s`, the reference into `%s`" % (cf.show(it_got), cf.show(it_w))))
+            # after the loop
+            if label == "murmur2_x86_impl":
+                cond = S["cond"]
+                c = norm.norm_cmp(ir.sx(cond), lambda x: x[0] == "ref") if cond is not None else None
+                nvar = c[1][1] if c else None
+                for v in range(4):
+                    labels = case_labels(S["top"][S["li"] + 1:], nvar)
+
+                    def decide(cnode, truth, case, v=v, nvar=nvar, labels=labels):
+                        if cnode is not None:
+                            c2 = norm.norm_cmp(ir.sx(cnode), lambda x: x == ("ref", nvar))
+                            if c2 is None:
+                                t_ = norm.uncast(ir.sx(cnode))
+                                if t_ == ("ref", nvar):
+                                    return (v != 0) == truth
+                                return None
+                            k_ = norm.int_of(c2[2])
+                            if k_ is None:
+                                return None
+                            r_ = {"<": v < k_, "<=": v <= k_, ">": v > k_, ">=": v >= k_, "==": v == k_, "!=": v != k_}[c2[0]]
+                            return r_ == truth
+                        if case is None or case.get("kind") == "DefaultStmt":
+                            return v not in labels
+                        iv = trange.interval(ir.ekids(case)[0])
+                        return iv is not None and iv[0] == iv[1] == v
+                    outs = {t for _, t in cf.post_trees(d, fn, S, decide)}
+                    if outs != {posts_w[v]}:
+                        got = sorted(cf.show(t) if t else "nothing" for t in outs)
+                        problems.append(("tail and finalisation with %d byte(s) left" % v, "returns `%s`, the reference `%s`" % (" | ".join(got)[:400], cf.show(posts_w[v])[:300])))
+            else:
+                outs = {t for _, t in cf.post_trees(d, fn, S, lambda a_, b_, c_: None)}
+                if outs != set(posts_w.values()):
+                    got = sorted(cf.show(t) if t else "nothing" for t in outs)
+                    problems.append(("tail and finalisation", "returns `%s`; the reference returns `%s`" % (" | ".join(got)[:400], " | ".join(sorted(cf.show(t) for t in posts_w.values()))[:400])))
+            if problems:
+                for cons, det in problems:
+                    rep.violates("C14.const", label, cons, where=where, detail=det)
+            else:
+                rep.holds("C14.const", label, "dataflow summary", where=where, detail="initial value, block update and %d post-loop outcome(s) equal the reference" % len(posts_w))
+        except (cf.Giveup, flow_Limit()) as e:
+            rep.inconclusive("C14.const", label, "dataflow summary", where=where, detail=str(e))
+    # load_bytes: reference sequence (its index/loop discipline is C14.byte's and C14.cursor's business)
+    for label, fn, ref in (("load_bytes", fns["load"], REF_LOAD),):
         seq, names = effect_sequence(fn)
         where = d.where(fn)
         if len(seq) != len(ref) or any(shape(a) != shape(b) for a, b in zip(seq, ref)):
             i = next((i for i, (a, b) in enumerate(zip(seq, ref)) if shape(a) != shape(b)), min(len(seq), len(ref)))
             got = show_eff(seq[i]) if i < len(seq) else "<end>"
             want = show_eff(ref[i]) if i < len(ref) else "<end>"
-            # a different statement structure: cannot be matched against the reference -> not a verdict
             rep.inconclusive("C14.const", label, "operation sequence", where=where,
                              detail="statement %d has a different shape than the reference algorithm: found `%s`, reference `%s`" % (i + 1, got, want))
             continue
@@ -248,6 +342,11 @@ def rule_const(rep, d, fns):
                              detail="found `%s`, the reference algorithm has `%s`" % (show_eff(a), show_eff(b)))
         else:
             rep.holds("C14.const", label, "operation sequence", where=where, detail="%d steps equal the reference" % len(ref))
+
+
+def flow_Limit():
+    from .. import flow
+    return flow.Limit
 
 
 def rule_entry(rep, d, fns):
